@@ -70,3 +70,55 @@ Fixpoint first_mod (l : list resp_action) : option (list Z * Z) :=
 
 Definition has_retry (l : list resp_action) : bool := existsb is_retry l.
 Definition has_mod (l : list resp_action) : bool := existsb is_mod_resp l.
+
+(* ------------------------------------------------------------------ findings
+   Vocabulary of the statements about the two open findings (Property.v,
+   section "findings"); lemmas are in Findings.v. *)
+
+(* F-C07a.  The header edits a RESPONSE MODIFICATION asks for (a retry's
+   headers are headers of the retried request, not edits of the response). *)
+Definition mod_edits (a : resp_action) : hdrs :=
+  match a with PModResp h _ _ => h | _ => [] end.
+
+(* scan of a response sequence: no modification so far | a modification is
+   accumulated | an accumulated modification was displaced by a retry *)
+Inductive rstate := SNone | SMod | SLost.
+
+(* some response modification comes after a retry that comes after a response
+   modification (no-ops anywhere).  Exactly the classifier of the monitor
+   (monitor.go retrySplitsMods). *)
+Fixpoint retry_splits_from (st : rstate) (l : list resp_action) : bool :=
+  match l with
+  | [] => false
+  | PNoOp :: r => retry_splits_from st r
+  | PModResp _ _ _ :: r =>
+      match st with SLost => true | _ => retry_splits_from SMod r end
+  | PRetry _ :: r =>
+      retry_splits_from (match st with SNone => SNone | _ => SLost end) r
+  end.
+Definition retry_splits_mods (l : list resp_action) : bool := retry_splits_from SNone l.
+
+(* F-C07b.  HTTP header names are case-insensitive: "X-A" and "x-a" name the
+   same header.  ASCII case folding of a name (header names are ASCII tokens). *)
+Definition lower_byte (c : Z) : Z := if (65 <=? c) && (c <=? 90) then c + 32 else c.
+Definition lower_str (s : str) : str := map lower_byte s.
+
+(* a header map with every name folded *)
+Definition canon (h : hdrs) : hdrs := map (fun kv => (lower_str (fst kv), snd kv)) h.
+
+(* look-up by header (case-insensitive name) *)
+Definition lookup_ci (k : str) (h : hdrs) : option (list Z) := lookup (lower_str k) (canon h).
+Definition last_edit_ci (k : str) (hs : list hdrs) : option (list Z) :=
+  last_edit (lower_str k) (map canon hs).
+
+(* at most one entry per header (per case-folded name) *)
+Definition ci_map (h : hdrs) : Prop := NoDup (map lower_str (keys h)).
+
+(* every name occurring in a sequence of header maps *)
+Definition all_keys (hs : list hdrs) : list (list Z) := flat_map keys hs.
+
+(* two names of the list differ only in case.  Exactly the classifier of the
+   monitor (monitor.go caseClash). *)
+Definition case_clash (ks : list (list Z)) : bool :=
+  existsb (fun k => existsb (fun k' => negb (str_eqb k k')
+                                       && str_eqb (lower_str k) (lower_str k')) ks) ks.
